@@ -13,6 +13,28 @@ CLAIMED = {
              "Total over CFG paths and header ids; says nothing about list-token parsing.",
         technique="CFG case-exclusion/dominance/must-pass (path-sensitive must-fact dataflow) + whole-program who-calls + constant table folding",
         design="5/C04"),
+    "C03": dict(
+        text="Framing gates on all CFG paths: HttpHeader::parse accepts a block only without NUL, rejects folded/bare-CR Content-Length/"
+             "Transfer-Encoding and CR-only request lines, removes Content-Length whenever Transfer-Encoding is present or a bad length was seen, "
+             "flags unsupported codings; checkEntityFraming returns 'ok' only past those flags; clientProcessRequest reaches doCallouts/"
+             "expectRequestBody only past the framing check and otherwise closes + replies; the upstream header builder never copies "
+             "Transfer-Encoding and copies Content-Length only when not re-chunking; kick() never parses after an error stop. "
+             "Does not compare message boundaries with a reference parser.",
+        technique="CFG dominance / response (must-pass after edge) / path-sensitive disjunction over atoms + call-argument constants",
+        design="5/C03"),
+    "C07": dict(
+        text="For all paths of FwdState::checkRetry/checkRetriable/reforward/retryOrBail/complete: a retry or re-forward is started only when "
+             "the body was not nibbled, the connection is not pinned, dont_retry is unset and (no server connection was ever used or the method "
+             "classifiers say safe/idempotent and there is no body); the classifiers' true-sets (enumerated per enumerator over the switch) "
+             "exclude POST/CONNECT/LOCK/PURGE/OTHER; connected_okay is set before every protocol start and written nowhere else.",
+        technique="CFG dominance + per-enumerator switch folding + ORDER (must-pass) + whole-program who-writes/who-calls",
+        design="5/C07"),
+    "C63": dict(
+        text="Every FwdState::Start call on the client reply side must be dominated by loopDetected==false (holds in processMiss; fails in "
+             "processExpired: recorded known finding); Via hit sets loopDetected on all paths; OPTIONS/TRACE with Max-Forwards 0 never reach "
+             "doCallouts/doGetMoreData; Max-Forwards is only ever emitted as hops-1 under hops>0.",
+        technique="CFG dominance at every resolved call site of the forwarding entry point + response rule + call-argument shape",
+        design="5/C63"),
 }
 
 NOT_APPLICABLE = {
